@@ -339,7 +339,6 @@ func c19R3(c *Ctx) {
 		c.Unres("C19.R3", "initInstanceLimit", "not found")
 	} else {
 		iinfo := il.Info()
-		q := NewPathQuery(p, il, nil)
 		verified := containsNode(func(k ast.Node) bool {
 			switch t := k.(type) {
 			case *ast.BinaryExpr:
@@ -350,34 +349,72 @@ func c19R3(c *Ctx) {
 			return false
 		})
 		m := 0
-		for _, s := range p.StoresTo([]*FuncInfo{il}, p.Field(daemonPkg, "NetworkServiceBuilder", "limit")) {
-			// ECS branch only: the store not under b.eflo
-			e := NewFactEngine(p, il)
-			f, err := e.ParseReq(recvObj(il).Name()+".eflo", s.Node.Pos())
-			if err == nil {
-				if isEflo, _, _ := e.FactsAt(s.Node, f); isEflo {
-					continue
-				}
+		// ECS path only: the EFLO provider describes the node, not an instance type
+		efloEdge := func(cond ast.Expr, takeTrue bool) bool {
+			x := ast.Unparen(cond)
+			neg := false
+			if u, ok := x.(*ast.UnaryExpr); ok && u.Op == token.NOT {
+				x, neg = ast.Unparen(u.X), true
 			}
-			m++
-			q.TrackNil = identObj(iinfo, s.RHS)
-			w := q.Escapes(nil, isExactly(s.Node), verified, nil)
-			c.Check(w == nil, "C19.R3", "instance limits are verified against the running instance type (or fetched fresh) before use", p.Pos(s.Node), il.Key(), "must-pass: (annotation type id == metadata type | provider.GetLimit) → b.limit = limit", "path: "+p.describePath(w))
+			sel, ok := x.(*ast.SelectorExpr)
+			if !ok {
+				return false
+			}
+			fv, _ := iinfo.ObjectOf(sel.Sel).(*types.Var)
+			if fv == nil || !fv.IsField() || fv.Name() != "eflo" {
+				return false
+			}
+			return takeTrue != neg // the edge on which b.eflo is true
 		}
-		c.Floor("C19.R3", "ECS-branch stores of the instance limits", 1, m)
-		// a metadata failure aborts (the comparison cannot be skipped by an error)
-		for _, cs := range p.CallsIn(il) {
-			if cs.Callee == nil || cs.Callee.Name() != "GetInstanceType" {
+		stores := p.StoresTo([]*FuncInfo{il}, p.Field(daemonPkg, "NetworkServiceBuilder", "limit"))
+		for _, s := range stores {
+			// a store that only the EFLO path reaches is not an ECS store
+			q0 := NewPathQuery(p, il, nil)
+			q0.Prune = efloEdge
+			if q0.Escapes(nil, isExactly(s.Node), nil, nil) == nil {
 				continue
 			}
-			_, lhs := assignedFromCall(il, cs.Call)
-			ok := false
-			if len(lhs) == 2 && lhs[1] != nil {
-				if arm := errArm(il, lhs[1], cs.Call.End()); arm != nil && len(arm.Body.List) > 0 {
-					_, ok = arm.Body.List[len(arm.Body.List)-1].(*ast.ReturnStmt)
+			m++
+			q := NewPathQuery(p, il, nil)
+			q.Prune = efloEdge
+			q.TrackNil = identObj(iinfo, s.RHS)
+			w := q.Escapes(nil, isExactly(s.Node), verified, nil)
+			c.Check(w == nil, "C19.R3", "instance limits are verified against the running instance type (or fetched fresh) before use", p.Pos(s.Node), il.Key(), "must-pass (ECS path): (annotation type id == metadata type | provider.GetLimit) → b.limit = limit", "path: "+p.describePath(w))
+		}
+		c.Floor("C19.R3", "ECS-path stores of the instance limits", 1, m)
+		// a metadata failure aborts (the comparison cannot be skipped by an error): with the error of
+		// GetInstanceType non-nil — followed through copies into other error variables — no store of
+		// the limits is reachable
+		var errVars []types.Object
+		seenE := map[types.Object]bool{}
+		ast.Inspect(il.Decl.Body, func(k ast.Node) bool {
+			if id, ok := k.(*ast.Ident); ok {
+				if v, ok := iinfo.ObjectOf(id).(*types.Var); ok && !v.IsField() && !seenE[v] && v.Type().String() == "error" && len(errVars) < 12 {
+					seenE[v] = true
+					errVars = append(errVars, v)
 				}
 			}
-			c.Check(ok, "C19.R3", "a metadata failure aborts initialisation", p.Pos(cs.Call), il.Key(), "instanceType, err := GetInstanceType(); if err != nil { return err }", "error does not abort: unverified limits could be used")
+			return true
+		})
+		for _, cs := range p.CallsIn(il) {
+			if cs.Callee == nil || cs.Callee.Name() != "GetInstanceType" || cs.Lit != nil {
+				continue
+			}
+			as, lhs := assignedFromCall(il, cs.Call)
+			if len(lhs) != 2 || lhs[1] == nil {
+				c.Bad("C19.R3", "a metadata failure aborts initialisation", p.Pos(cs.Call), il.Key(), "the error of GetInstanceType is bound", "error discarded")
+				continue
+			}
+			q := NewPathQuery(p, il, nil)
+			q.TrackNils = errVars
+			q.StartNil = map[types.Object]int{lhs[1]: nilNo}
+			var w []ast.Node
+			for _, s := range stores {
+				if w == nil {
+					w = q.Escapes(isExactly(as), isExactly(s.Node), nil, nil)
+				}
+			}
+			c.Check(w == nil, "C19.R3", "a metadata failure aborts initialisation", p.Pos(cs.Call), il.Key(), "with err != nil after GetInstanceType no store of b.limit is reachable", "unverified limits could be used: "+p.describePath(w))
 		}
 	}
 	// node reconciler
@@ -589,13 +626,14 @@ func c19R6(c *Ctx) {
 
 // R7: the capacity annotations are published unless ALL of them are already on
 // the node with the wanted value. PatchNodeAnnotations may skip the API call
-// only after the loop over the wanted annotations completed without finding a
-// difference: no success return inside the loop, the skip after the loop hangs
-// on a flag that starts "nothing to do" and is flipped whenever an entry is
-// absent or different.
+// only after a loop over the wanted annotations completed without finding a
+// difference. Two forms of "all": a flag that starts "nothing to do" and is
+// flipped for every absent or different entry (no success return inside the
+// loop), or a helper that returns inside its loop for a difference and the
+// opposite constant after it.
 func c19R7(c *Ctx) {
 	p := c.P
-	c.Rule("C19.R7", "k8s.PatchNodeAnnotations skips the patch only when every wanted annotation is present with the wanted value: no success return inside the loop over the wanted map; the skip after the loop tests a flag that is flipped for every absent or different entry")
+	c.Rule("C19.R7", "k8s.PatchNodeAnnotations skips the patch only when every wanted annotation is present with the wanted value: the skip tests a universal match over the wanted map (a flag flipped for every absent or different entry, or a helper that leaves its loop at the first difference); no success return inside the loop over the wanted map")
 	fn := p.Func("pkg/k8s", "k8s.PatchNodeAnnotations")
 	if fn == nil {
 		c.Unres("C19.R7", "k8s.PatchNodeAnnotations", "not found")
@@ -604,13 +642,6 @@ func c19R7(c *Ctx) {
 	info := fn.Info()
 	sig := fn.Obj.Type().(*types.Signature)
 	want := info.Defs[fn.Decl.Type.Params.List[0].Names[0]]
-	var loop *ast.RangeStmt
-	ast.Inspect(fn.Decl.Body, func(nd ast.Node) bool {
-		if rs, ok := nd.(*ast.RangeStmt); ok && identObj(info, rs.X) == want && loop == nil {
-			loop = rs
-		}
-		return true
-	})
 	var patch *ast.CallExpr
 	for _, cs := range p.CallsIn(fn) {
 		if cs.Callee != nil && cs.Callee.Name() == "Patch" {
@@ -621,39 +652,94 @@ func c19R7(c *Ctx) {
 		c.Undec("C19.R7", "PatchNodeAnnotations: the patch call", p.Pos(fn.Decl), fn.Key(), "a Patch call", "not found")
 		return
 	}
-	if loop == nil {
-		// no comparison loop: every call patches — nothing can be skipped wrongly, if no success return precedes the patch
-		for _, r := range declReturns(fn.Decl.Body) {
-			if ok, known := isSuccessReturn(info, sig, r); ok && known && r.Pos() < patch.Pos() {
-				c.Bad("C19.R7", "PatchNodeAnnotations: skip without comparing", p.Pos(r), fn.Key(), "a skip follows a comparison of every wanted annotation", "success return before the patch and no loop over the wanted annotations")
-			}
+	var loop *ast.RangeStmt
+	ast.Inspect(fn.Decl.Body, func(nd ast.Node) bool {
+		if rs, ok := nd.(*ast.RangeStmt); ok && identObj(info, rs.X) == want && loop == nil {
+			loop = rs
 		}
-		c.OK("C19.R7", "PatchNodeAnnotations always patches", p.Pos(patch), fn.Key(), "no skip")
-		return
+		return true
+	})
+	// per-iteration obligation, shared by both forms: an iteration that completes saw an equal entry
+	// (or, flag form, flipped the flag)
+	iterEq := func(f *FuncInfo, l *ast.RangeStmt, orFlag *ast.Ident, flagWhen bool, what string) {
+		finfo := f.Info()
+		ko, vo := identObj(finfo, l.Key), identObj(finfo, l.Value)
+		var okId *ast.Ident
+		var got types.Object
+		var cmp *ast.BinaryExpr
+		ast.Inspect(l.Body, func(k ast.Node) bool {
+			if as, ok := k.(*ast.AssignStmt); ok && len(as.Lhs) == 2 && len(as.Rhs) == 1 {
+				if ix, ok := ast.Unparen(as.Rhs[0]).(*ast.IndexExpr); ok && ko != nil && identObj(finfo, ix.Index) == ko {
+					got = identObj(finfo, as.Lhs[0])
+					okId, _ = ast.Unparen(as.Lhs[1]).(*ast.Ident)
+				}
+			}
+			return true
+		})
+		ast.Inspect(l.Body, func(k ast.Node) bool {
+			be, ok := k.(*ast.BinaryExpr)
+			if !ok || (be.Op != token.EQL && be.Op != token.NEQ) || vo == nil {
+				return true
+			}
+			a, b := ast.Unparen(be.X), ast.Unparen(be.Y)
+			isGot := func(x ast.Expr) bool {
+				if got != nil && identObj(finfo, x) == got {
+					return true
+				}
+				ix, ok := x.(*ast.IndexExpr)
+				return ok && got == nil && identObj(finfo, ix.Index) == ko
+			}
+			if (isGot(a) && identObj(finfo, b) == vo) || (isGot(b) && identObj(finfo, a) == vo) {
+				cmp = be
+			}
+			return true
+		})
+		if cmp == nil {
+			c.Undec("C19.R7", what, p.Pos(l), f.Key(), "the node's value is compared with the wanted value", "comparison not recognised")
+			return
+		}
+		c.RequireAtEndF("C19.R7", what, f, l.Body, "the entry is present and equal"+map[bool]string{true: " or the flag was flipped", false: ""}[orFlag != nil], func(e *FactEngine) (*Formula, error) {
+			eq := e.Cond(cmp)
+			if cmp.Op == token.NEQ {
+				eq = mkNot(eq)
+			}
+			if okId != nil && okId.Name != "_" {
+				eq = mkAnd(e.Cond(okId), eq)
+			}
+			if orFlag != nil {
+				fl := e.Cond(orFlag)
+				if !flagWhen {
+					fl = mkNot(fl)
+				}
+				eq = mkOr(eq, fl)
+			}
+			return eq, nil
+		})
 	}
-	// 1. nothing succeeds from inside the loop
+	// 1. nothing succeeds from inside the loop of the function itself
 	inLoop := 0
-	for _, r := range declReturns(fn.Decl.Body) {
-		if r.Pos() > loop.Body.Pos() && r.End() < loop.Body.End() {
-			if ok, known := isSuccessReturn(info, sig, r); (ok && known) || !known {
-				inLoop++
-				c.Bad("C19.R7", "PatchNodeAnnotations: no skip before every entry was compared", p.Pos(r), fn.Key(), "no success return inside the loop over the wanted annotations", "returns from inside the loop: one matching entry skips the patch of all others")
+	if loop != nil {
+		for _, r := range declReturns(fn.Decl.Body) {
+			if r.Pos() > loop.Body.Pos() && r.End() < loop.Body.End() {
+				if ok, known := isSuccessReturn(info, sig, r); (ok && known) || !known {
+					inLoop++
+					c.Bad("C19.R7", "PatchNodeAnnotations: no skip before every entry was compared", p.Pos(r), fn.Key(), "no success return inside the loop over the wanted annotations", "returns from inside the loop: one matching entry skips the patch of all others")
+				}
 			}
 		}
+		if inLoop == 0 {
+			c.OK("C19.R7", "PatchNodeAnnotations: no skip before every entry was compared", p.Pos(loop), fn.Key(), "no success return inside the loop")
+		}
 	}
-	if inLoop == 0 {
-		c.OK("C19.R7", "PatchNodeAnnotations: no skip before every entry was compared", p.Pos(loop), fn.Key(), "no success return inside the loop")
-	}
-	// 2. the skips after the loop and before the patch
+	// 2. the skips before the patch (after the loop, when there is one)
 	nskip := 0
 	for _, r := range declReturns(fn.Decl.Body) {
-		if r.Pos() < loop.End() || r.Pos() > patch.Pos() {
+		if r.Pos() > patch.Pos() || (loop != nil && r.Pos() < loop.End()) {
 			continue
 		}
 		if ok, known := isSuccessReturn(info, sig, r); !ok || !known {
 			continue
 		}
-		nskip++
 		var guard *ast.IfStmt
 		for _, x := range pathTo(fn.Decl.Body, r) {
 			if is, ok := x.(*ast.IfStmt); ok && is.Body.Pos() <= r.Pos() && r.End() <= is.Body.End() {
@@ -665,13 +751,76 @@ func c19R7(c *Ctx) {
 			continue
 		}
 		cond := ast.Unparen(guard.Cond)
+		// `len(anno) == 0`: nothing is wanted
+		if be, ok := cond.(*ast.BinaryExpr); ok {
+			if lc, isLen := isBuiltinCall(info, be.X, "len"); isLen && identObj(info, lc.Args[0]) == want {
+				continue
+			}
+		}
+		nskip++
 		skipWhen := true
 		if u, ok := cond.(*ast.UnaryExpr); ok && u.Op == token.NOT {
 			cond, skipWhen = ast.Unparen(u.X), false
 		}
+		// helper form
+		if call, ok := cond.(*ast.CallExpr); ok {
+			h := p.FuncOf(Callee(info, call))
+			if h == nil || h.Decl.Body == nil {
+				c.Undec("C19.R7", "PatchNodeAnnotations: the skip tests a universal match", p.Pos(guard.Cond), fn.Key(), "a module helper", exprString(cond))
+				continue
+			}
+			hinfo := h.Info()
+			// the helper ranges over the parameter bound to the wanted map
+			var hl *ast.RangeStmt
+			ast.Inspect(h.Decl.Body, func(nd ast.Node) bool {
+				rs, ok := nd.(*ast.RangeStmt)
+				if !ok || hl != nil {
+					return true
+				}
+				if v, ok := identObj(hinfo, rs.X).(*types.Var); ok {
+					if pi := paramIndex(h, v); pi >= 0 && pi < len(call.Args) && identObj(info, call.Args[pi]) == want {
+						hl = rs
+					}
+				}
+				return true
+			})
+			if hl == nil {
+				c.Bad("C19.R7", "PatchNodeAnnotations: the skip tests a universal match", p.Pos(guard.Cond), fn.Key(), h.Name+" ranges over the wanted annotations", "no loop over the parameter that receives the wanted map")
+				continue
+			}
+			okShape, why := true, ""
+			nIn, nOut := 0, 0
+			for _, hr := range declReturns(h.Decl.Body) {
+				if len(hr.Results) != 1 {
+					okShape, why = false, "result count"
+					continue
+				}
+				tv := hinfo.Types[ast.Unparen(hr.Results[0])]
+				if tv.Value == nil {
+					okShape, why = false, "non-constant return "+exprString(hr.Results[0])
+					continue
+				}
+				val := tv.Value.String() == "true"
+				inside := hr.Pos() > hl.Body.Pos() && hr.End() < hl.Body.End()
+				switch {
+				case inside && val != skipWhen:
+					nIn++
+				case !inside && hr.Pos() > hl.End() && val == skipWhen:
+					nOut++
+				default:
+					okShape, why = false, fmt.Sprintf("returns %v at %s", val, p.Pos(hr))
+				}
+			}
+			c.Check(okShape && nIn > 0 && nOut > 0, "C19.R7", "PatchNodeAnnotations: the skip tests a universal match", p.Pos(guard.Cond), fn.Key(),
+				h.Name+" returns "+fmt.Sprint(!skipWhen)+" inside its loop and "+fmt.Sprint(skipWhen)+" only after it", why)
+			if okShape {
+				iterEq(h, hl, nil, false, h.Name+": an iteration that completes saw an equal entry")
+			}
+			continue
+		}
 		flag := identObj(info, cond)
-		if flag == nil {
-			c.Undec("C19.R7", "PatchNodeAnnotations: the skip tests a flag", p.Pos(guard.Cond), fn.Key(), "a boolean flag maintained by the loop", exprString(guard.Cond))
+		if flag == nil || loop == nil {
+			c.Undec("C19.R7", "PatchNodeAnnotations: the skip tests a universal match", p.Pos(guard.Cond), fn.Key(), "a flag maintained by a loop over the wanted map, or a helper", exprString(guard.Cond))
 			continue
 		}
 		okShape, why := true, ""
@@ -679,7 +828,7 @@ func c19R7(c *Ctx) {
 		for _, d := range varDefs(fn, flag) {
 			if d.rhs == nil {
 				if _, isDecl := d.node.(*ast.ValueSpec); isDecl && !skipWhen {
-					continue // var need bool (false)
+					continue
 				}
 				okShape, why = false, "assigned from a multi-value expression"
 				continue
@@ -699,76 +848,36 @@ func c19R7(c *Ctx) {
 				okShape, why = false, fmt.Sprintf("assigned %v at %s", val, p.Pos(d.node))
 			}
 		}
-		c.Check(okShape && len(flips) > 0, "C19.R7", "PatchNodeAnnotations: the skip flag starts 'nothing to do' and is only ever flipped inside the loop", p.Pos(guard.Cond), fn.Key(),
+		c.Check(okShape && len(flips) > 0, "C19.R7", "PatchNodeAnnotations: the skip tests a universal match", p.Pos(guard.Cond), fn.Key(),
 			"flag := "+fmt.Sprint(skipWhen)+" before the loop; flag = "+fmt.Sprint(!skipWhen)+" inside it", why)
-		// 3. every absent or different entry flips it
-		key, val := "", ""
-		if id, ok := loop.Key.(*ast.Ident); ok {
-			key = id.Name
+		if !okShape || len(flips) == 0 {
+			continue
 		}
-		if id, ok := loop.Value.(*ast.Ident); ok {
-			val = id.Name
-		}
-		if okShape && len(flips) > 0 && key != "" && val != "" {
-			// the node-side lookup: X[key]
-			var lookup *ast.IndexExpr
-			var okName, vName string
-			ast.Inspect(loop.Body, func(k ast.Node) bool {
-				if ix, ok := k.(*ast.IndexExpr); ok && exprString(ix.Index) == key && lookup == nil {
-					lookup = ix
-				}
-				if as, ok := k.(*ast.AssignStmt); ok && len(as.Lhs) == 2 && len(as.Rhs) == 1 {
-					if ix, ok := ast.Unparen(as.Rhs[0]).(*ast.IndexExpr); ok && exprString(ix.Index) == key {
-						vName, okName = exprString(as.Lhs[0]), exprString(as.Lhs[1])
-					}
-				}
+		flagId, _ := cond.(*ast.Ident)
+		iterEq(fn, loop, flagId, !skipWhen, "PatchNodeAnnotations: an iteration that completes saw an equal entry or flipped the flag")
+		// an iteration that is cut short (break) flipped the flag just before
+		ast.Inspect(loop.Body, func(k ast.Node) bool {
+			blk, ok := k.(*ast.BlockStmt)
+			if !ok {
 				return true
-			})
-			req := ""
-			switch {
-			case okName != "" && okName != "_" && vName != "_":
-				req = "!" + okName + " || " + vName + " != " + val
-			case lookup != nil:
-				req = exprString(lookup) + " != " + val
 			}
-			if req == "" {
-				c.Undec("C19.R7", "PatchNodeAnnotations: a different entry flips the flag", p.Pos(loop), fn.Key(), "node value compared with the wanted value", "lookup of the node's annotation not recognised")
-			} else {
-				// an iteration that completes either saw an equal entry or flipped the flag …
-				eq := strings.NewReplacer(" != ", " == ").Replace(req)
-				if okName != "" && okName != "_" && vName != "_" {
-					eq = okName + " && " + vName + " == " + val
+			for i, st := range blk.List {
+				br, ok := st.(*ast.BranchStmt)
+				if !ok || br.Tok != token.BREAK {
+					continue
 				}
-				flagNow := "!" + flag.Name()
-				if !skipWhen {
-					flagNow = flag.Name()
+				after := false
+				if i > 0 {
+					for _, fl := range flips {
+						if ast.Node(blk.List[i-1]) == fl {
+							after = true
+						}
+					}
 				}
-				c.RequireAtEnd("C19.R7", "PatchNodeAnnotations: an iteration that completes saw an equal entry or flipped the flag", fn, loop.Body, "("+eq+") || "+flagNow, nil)
-				// … and one that is cut short (break) flipped it just before
-				ast.Inspect(loop.Body, func(k ast.Node) bool {
-					blk, ok := k.(*ast.BlockStmt)
-					if !ok {
-						return true
-					}
-					for i, st := range blk.List {
-						br, ok := st.(*ast.BranchStmt)
-						if !ok || br.Tok != token.BREAK {
-							continue
-						}
-						after := false
-						if i > 0 {
-							for _, fl := range flips {
-								if ast.Node(blk.List[i-1]) == fl {
-									after = true
-								}
-							}
-						}
-						c.Check(after, "C19.R7", "PatchNodeAnnotations: the loop is cut short only after flipping the flag", p.Pos(br), fn.Key(), "flag flipped; break", "break without a flip directly before it")
-					}
-					return true
-				})
+				c.Check(after, "C19.R7", "PatchNodeAnnotations: the loop is cut short only after flipping the flag", p.Pos(br), fn.Key(), "flag flipped; break", "break without a flip directly before it")
 			}
-		}
+			return true
+		})
 	}
 	c.Floor("C19.R7", "skips of the patch", 1, nskip+inLoop)
 }
